@@ -213,6 +213,17 @@ func (v *globValidator) validate(pat string) {
 		return
 	}
 
+	if strings.HasPrefix(pat, "\ufeff") {
+		// text/scanner silently skips U+FEFF at the head of the input, but it is an ordinary character
+		// of the pattern. The second character is not the first one and it follows a non-special one
+		v.prec = true
+		if v.scan.Peek() != scanner.EOF {
+			for v.validateNext() {
+			}
+		}
+		return
+	}
+
 	// Handle first character if necessary
 	switch v.scan.Peek() {
 	case '/':
